@@ -574,7 +574,15 @@ def target_contents(rng, tier):
            b"hello world, not an image\n",
            tape[:rng.randrange(300, len(tape))],                      # a truncated tape
            bytes([0x55, 0x3C, 0x00, 0x0F]) + bytes(rng.randrange(256) for _ in range(40))]   # a header and garbage
-    t = {"absent": None, "empty": b"", "cassette": tape, "disk": disk, "rawbin": raw, "arbitrary": rng.choice(arb)}
+    # content of at least the size of a disk image that is neither a disk nor a tape: a large raw binary, or
+    # large arbitrary bytes with free-looking directory marks (the size test is the disk reader's only test)
+    bigraw = bytes([0x86, 0x01, 0xB7, 0x04, 0x00, 0x39]) * rng.randrange(27000, 30000)
+    bigarb = bytearray(rng.randrange(256) for _ in range(2000)) * 90
+    for e in range(72):
+        bigarb[78848 + 32 * e] = rng.choice([0x00, 0xFF])
+    t = {"absent": None, "empty": b"", "cassette": tape, "disk": disk, "rawbin": raw, "arbitrary": rng.choice(arb),
+         rng.choice(["bigraw", "bigarbitrary"]): None}
+    t = {k: (bigraw if k == "bigraw" else bytes(bigarb) if k == "bigarbitrary" else v) for k, v in t.items()}
     if tier == "thorough":
         t["arbitrary2"] = arb[2]
         t["arbitrary3"] = arb[3]
